@@ -32,6 +32,7 @@ type Instr struct {
 	Slot  int    `json:"slot"`
 	Child int    `json:"child"`
 	Init  string `json:"init"`
+	Gm    string `json:"gm"`
 }
 
 type FrameDesc struct {
@@ -182,6 +183,7 @@ var (
 	AddrN  = common.HexToAddress("0x000000000000000000000000000000000000cc01")
 	AddrP  = common.HexToAddress("0x0000000000000000000000000000000000000004")
 	AddrPW = common.HexToAddress("0x0000000000000000000000000000000000000066")
+	AddrZ  = common.HexToAddress("0x000000000000000000000000000000000000dd02")
 	TypeID = common.HexToHash("0x7700000000000000000000000000000000000000000000000000000000000077")
 )
 
@@ -239,7 +241,7 @@ func (w *world) addr(name string) common.Address {
 
 func newWorld() *world {
 	return &world{names: map[string]common.Address{
-		"eoa": evmx.DefaultOrigin, "a": AddrA, "b": AddrB, "n": AddrN, "p": AddrP, "pw": AddrPW,
+		"eoa": evmx.DefaultOrigin, "a": AddrA, "b": AddrB, "n": AddrN, "p": AddrP, "pw": AddrPW, "z": AddrZ,
 	}}
 }
 
@@ -328,15 +330,30 @@ func (w *world) compileBlock(a *evmx.Asm, prog []Instr, cancun bool) {
 				retOff = argOff + 0xC0
 			}
 			a.Push(32).Push(retOff).Push(uint64(len(data))).Push(argOff)
+			gasArg := func() {
+				if in.Gm == "none" {
+					a.Push(0)
+				} else {
+					a.Op(vm.GAS)
+				}
+			}
 			switch in.Kind {
 			case "CALL":
-				a.Push(uint64(in.Val)).PushAddr(w.addr(in.Tgt)).Op(vm.GAS, vm.CALL)
+				a.Push(uint64(in.Val)).PushAddr(w.addr(in.Tgt))
+				gasArg()
+				a.Op(vm.CALL)
 			case "CALLCODE":
-				a.Push(uint64(in.Val)).PushAddr(w.addr(in.Tgt)).Op(vm.GAS, vm.CALLCODE)
+				a.Push(uint64(in.Val)).PushAddr(w.addr(in.Tgt))
+				gasArg()
+				a.Op(vm.CALLCODE)
 			case "DELEGATECALL":
-				a.PushAddr(w.addr(in.Tgt)).Op(vm.GAS, vm.DELEGATECALL)
+				a.PushAddr(w.addr(in.Tgt))
+				gasArg()
+				a.Op(vm.DELEGATECALL)
 			case "STATICCALL":
-				a.PushAddr(w.addr(in.Tgt)).Op(vm.GAS, vm.STATICCALL)
+				a.PushAddr(w.addr(in.Tgt))
+				gasArg()
+				a.Op(vm.STATICCALL)
 			}
 			a.Op(vm.POP)
 			if in.Over {
@@ -493,6 +510,8 @@ func Run(s *Scenario, fork string) (out Outcome) {
 	st.SetBalance(AddrA, big.NewInt(2))
 	st.SetNonce(AddrA, 1)
 	st.SetNonce(AddrB, 1)
+	st.SetNonce(AddrZ, 1)
+	st.SetCode(AddrZ, StubRuntime)
 	st.SetCode(AddrA, w.compileContract("a", s.Frames, s.Cancun))
 	st.SetCode(AddrB, w.compileContract("b", s.Frames, s.Cancun))
 
@@ -639,7 +658,7 @@ func intOf(raw json.RawMessage) int {
 }
 
 func (c *comparer) allNames() []string {
-	names := []string{"eoa", "a", "b", "n", "p", "pw"}
+	names := []string{"eoa", "a", "b", "n", "p", "pw", "z"}
 	for _, cr := range []string{"a", "b", "eoa"} {
 		for n := 0; n <= 3; n++ {
 			names = append(names, fmt.Sprintf("%s#%d", cr, n))
@@ -662,8 +681,8 @@ func (c *comparer) world() {
 	st := c.env.State
 	x := c.s.Expect
 	bal0 := map[string]int{"eoa": 5, "a": 2}
-	nonce0 := map[string]int{"a": 1, "b": 1}
-	code0 := map[string]string{"a": "prog", "b": "prog"}
+	nonce0 := map[string]int{"a": 1, "b": 1, "z": 1}
+	code0 := map[string]string{"a": "prog", "b": "prog", "z": "stub"}
 	dead := map[string]bool{}
 	for _, d := range x.Dead {
 		dead[d] = true
